@@ -143,6 +143,9 @@ func (c *Ctl) peek() []*Stmt {
 }
 func (c *Ctl) Count() int { c.mu.Lock(); defer c.mu.Unlock(); return c.n }
 
+// TxIdle reports whether no transaction is open (begun and neither committed nor rolled back).
+func (c *Ctl) TxIdle() bool { return len(c.txToken) == 1 }
+
 func (c *Ctl) hit(ctx context.Context, kind, q string, args []driver.NamedValue) (*Stmt, error) {
 	c.mu.Lock()
 	defer c.mu.Unlock()
